@@ -16,6 +16,7 @@ pub fn child_ctx(prop: &str, seed: u64) -> Ctx {
         seed,
         threads,
         verif_dir: std::env::var("VERIF_DIR").unwrap_or_else(|_| "/verif".into()),
+        out_dir: std::env::var("VERIF_OUT_DIR").or_else(|_| std::env::var("VERIF_DIR")).unwrap_or_else(|_| "/verif".into()),
         scale: 1.0,
         start: Instant::now(),
         budget_s: std::env::var("VERIF_CHILD_BUDGET_S").ok().and_then(|v| v.parse().ok()).unwrap_or(300.0),
